@@ -884,6 +884,14 @@ func (e *Explorer) callEvent(s *pstate, kind string, in ssa.Instruction, c *ssa.
 	if kind == "call" {
 		e.havoc(s, ev.Callee)
 	}
+	if v != nil && ev.Callee != nil && kind == "call" {
+		if t := e.inlinePure(ev.Callee, args); t != nil {
+			ev.Res = t
+			s.regs[v] = t
+			s.events = append(s.events, ev)
+			return
+		}
+	}
 	if v != nil {
 		name := ev.Method
 		if ev.Callee != nil {
@@ -897,4 +905,44 @@ func (e *Explorer) callEvent(s *pstate, kind string, in ssa.Instruction, c *ssa.
 		s.regs[v] = r
 	}
 	s.events = append(s.events, ev)
+}
+
+// inlinePure: a pure, branch-free library helper whose single result is an
+// expression over its parameters and write-once fields is replaced by that
+// expression (so moving `(PC+1)%s.m` into a helper changes no term).
+var inlining = map[*ssa.Function]bool{}
+
+func (e *Explorer) inlinePure(fn *ssa.Function, args []*T) *T {
+	if fn.Pkg != e.W.SLib || !e.W.isPure(fn) || fn.Signature.Results().Len() != 1 || inlining[fn] || len(fn.Blocks) != 1 {
+		return nil
+	}
+	inlining[fn] = true
+	defer delete(inlining, fn)
+	paths, err := e.W.Paths(fn)
+	if err != nil || len(paths) != 1 || paths[0].End != "ret" || len(paths[0].Ret) != 1 {
+		return nil
+	}
+	for _, ev := range paths[0].Events {
+		if ev.Kind != "ret" {
+			return nil
+		}
+	}
+	ret := paths[0].Ret[0]
+	if ret.contains(func(x *T) bool { return x.E != 0 || x.Op == "unk" || x.Op == "outer" }) {
+		return nil
+	}
+	sub := map[string]*T{}
+	for i, p := range fn.Params {
+		if i < len(args) {
+			sub[p.Name()] = args[i]
+		}
+	}
+	return rewrite(ret, func(x *T) *T {
+		if x.Op == "p" {
+			if a, ok := sub[x.S]; ok {
+				return a
+			}
+		}
+		return nil
+	})
 }
